@@ -790,7 +790,8 @@ fn parse_time_with_units(s: &str, converter: &Converter) -> Result<u32, ParseTim
 /// saturating
 fn minutes_to_u32(minutes: f64) -> Result<u32, ParseTimeError> {
     let rounded = minutes.round();
-    if rounded.is_finite() && (0.0..=u32::MAX as f64).contains(&rounded) {
+    // check the sign before rounding, -0.4 rounds to -0.0 which is in the range
+    if rounded.is_finite() && minutes >= 0.0 && rounded <= u32::MAX as f64 {
         Ok(rounded as u32)
     } else {
         Err(ParseTimeError::OutOfRange)
